@@ -337,6 +337,8 @@ class G:
                         row.append(self.d(st.sampled_from([["k", 5], ["k", -1], ["null"], ["k", 0]])))
                 rows.append(row)
             sa = {"kind": kind, "table": t, "columns": cols[:ncol] if (use_cols or ncol != len(cols)) else None, "rows": rows, "replace": kind == "insert" and self.d(st.integers(0, 4)) == 0}
+            if kind == "insert" and self.d(st.integers(0, 5)) == 0:
+                sa["table_alias"] = "tg"  # the Table object carries an alias (INSERT INTO t AS tg is SQLite's and PostgreSQL's form)
             if kind == "upsert":
                 scope = [("tgt", {"int": ["k", "v"], "text": []})]
                 action = self.d(st.sampled_from(["nothing", "update_value", "update_excluded", "update_value"]))
@@ -597,7 +599,7 @@ def P_stmt(sa):
     if k == "select":
         return P_select(sa)
     if k in ("insert", "upsert"):
-        src = {"tgt": ["tbl", sa["table"], None, None]}
+        src = {"tgt": ["tbl", sa["table"], None, sa.get("table_alias")]}
         steps = [["into", [["src", "tgt"]]]]
         if sa["columns"]:
             steps.append(["columns", [["py", c] for c in sa["columns"]]])
@@ -771,7 +773,7 @@ def R_stmt(sa):
     if k == "select":
         return R_select(sa)
     if k in ("insert", "upsert"):
-        sql = ("REPLACE" if sa.get("replace") else "INSERT") + " INTO " + Q(sa["table"])
+        sql = ("REPLACE" if sa.get("replace") else "INSERT") + " INTO " + Q(sa["table"]) + (" AS " + Q(sa["table_alias"]) if sa.get("table_alias") else "")
         if sa["columns"]:
             sql += " (" + ", ".join(Q(c) for c in sa["columns"]) + ")"
         sql += " VALUES " + ", ".join("(" + ", ".join(R_expr(v, {}) for v in row) + ")" for row in sa["rows"])
